@@ -1,2 +1,4 @@
-// C07: the "other object" whose call_other is the ORIGIN_CALL_OTHER caller
-mixed do_call (object ob, string fn) { return call_other (ob, fn); }
+// C07: the "other object" whose call_other is the ORIGIN_CALL_OTHER caller; the target may be an object, an array of
+// objects / file names, or a file name (f_call_other's target kinds)
+void create () { seteuid (getuid ()); }
+mixed do_call (mixed target, string fn) { return call_other (target, fn); }
